@@ -26,9 +26,12 @@ ASSUMPTIONS = [
     "unsolicited messages (a remote that answers a SendMessage leaves a stale reply on the reused stream: outcome reported under "
     "input_distribution 'adversarial:remote-answers-SendMessage:*', not a violation)",
     "request ids are the call ids; Stream.Close returns nil",
-    "one stream per PEER is proved only for event lists without OnDisconnect and without a failed Lock(ctx); with them the model "
-    "refutes it (c11_one_stream_per_peer_refuted, c11_stream_leak_refuted); the trace check allows one extra open stream per "
-    "disconnect notification of the peer",
+    "one stream per PEER is proved for event lists without OnDisconnect (since d646d02 a failed Lock(ctx) no longer orphans a "
+    "sender: c11_valid_sender_stays_mapped); right after a disconnect notification the model and the code have a transient with "
+    "two open streams (c11_one_stream_per_peer_refuted); the trace check allows one extra open stream per disconnect "
+    "notification of the peer",
+    "the schedule of the repaired orphaned-sender leak needs a preemption no gate offers: regression replay with a hooked "
+    "ctx_mutex overlay in corpus/C11/orphan-sender (run.sh), not part of the generated cases",
     "schedules in which Go's select would have two ready arms (Lock(ctx) with a free lock and a done context) are not generated",
 ]
 TECHNIQUE = ("Coq proof (invariant by induction over all event lists of a transcribed state machine of messageSenderImpl / "
@@ -41,7 +44,7 @@ LEVEL_TEXT = ("Theorems in coq/Props/C11.v hold for every event list (every inte
               "and fails (after at most one retry on a new stream), a reset stream is never written to or current again, exchanges on a "
               "sender are serialized by its lock over at most one open stream, a call writes at most twice, no nil-stream dereference. "
               "PARTIAL: the proof is about the state machine; real stream/yamux behaviour is replaced by an in-memory pipe; one stream "
-              "per peer holds only without orphaned sender records (refutations given).")
+              "per peer holds for event lists without OnDisconnect (transient after a disconnect refuted by witness).")
 LEVEL_NOTE = ("Proof is about the Gallina model; the tie to the Go code is the correspondence run (step-by-step differential testing under "
               "synctest, bounded by the generator). Trusted: Coq kernel, vm_compute, the harness and its in-memory streams, synctest, "
               "FIFO hand-off of the channel mutex.")
